@@ -46,7 +46,10 @@ def pool(depth):
             nxt.append(TupleType([a, b]))
         for a in small[:4]:
             for c in consts: nxt.append(array_type(a, c))
-        nxt += [FunctionType([FuncInput(Q, InputFlags.Owned)], NoneType()), FunctionType([FuncInput(Q, InputFlags.Inout)], NoneType()),
+        AI = array_type(I_, ConstValue(N_, 2))
+        nxt += [FunctionType([FuncInput(AI, InputFlags.Owned)], NoneType()), FunctionType([FuncInput(AI, InputFlags.Inout)], NoneType()), FunctionType([FuncInput(array_type(A, NV), InputFlags.Inout)], NoneType()),
+                FunctionType([FuncInput(I_, InputFlags.Owned)], NoneType()),
+                FunctionType([FuncInput(Q, InputFlags.Owned)], NoneType()), FunctionType([FuncInput(Q, InputFlags.Inout)], NoneType()),
                 FunctionType([FuncInput(A, InputFlags.NoFlags)], B), FunctionType([FuncInput(I_, InputFlags.NoFlags)], A), FunctionType([FuncInput(I_, InputFlags.NoFlags), FuncInput(B, InputFlags.NoFlags)], A)]
         level = nxt
         allt += nxt
@@ -106,10 +109,12 @@ def canon(t, m=None):
     return (t[0],) + tuple(canon(x, m) for x in t[1:])
 
 def is_linear(term):
-    """resolved term of a type that must be used exactly once (qubit, a variable of general kind, tuples of those)"""
+    """resolved term of a type that is NOT COPYABLE, so that an owned and a borrowed input differ in calling convention
+    (qubit, arrays, a variable of general kind, tuples / lists / options holding one)"""
     if term[0] == "var": return True
     if term[0] == "def:qubit:0": return True
-    if term[0].startswith("tuple:"): return any(is_linear(x) for x in term[1:])
+    if term[0].startswith("def:array"): return True
+    if term[0].startswith("tuple:") or term[0].startswith("def:"): return any(is_linear(x) for x in term[1:] if isinstance(x, tuple))
     return False
 
 def flag_conflict(s, t, ref):
